@@ -38,6 +38,11 @@ counters! {
     dl_reader, dl_bufreader, dl_str, dl_value, dl_destr, dl_destring, dl_deborrowed,
     dl_escaped_str, dl_escaped_reader, dl_in_place, deliveries_not_applicable, records_not_serialisable_in_shape,
     r1_durability_checked, r3_torn_rejected,
+    // phase B: second format (binary, self-describing, not human-readable)
+    pack_runs, pack_not_serialisable_in_shape, pack_in_memory_round_trips_ok,
+    pack_wr_acknowledged, pack_wr_failed_honestly, pack_wr_crashed, pack_write_faults_delivered,
+    pack_reads_intact_ok, pack_reads_intact_under_terminal_fault, pack_reads_torn_rejected, pack_reads_non_intact_other,
+    pack_read_faults_delivered, pack_buffered_container_shapes,
     // rare corners
     probe_fault_on_first_write, probe_fault_on_last_write, probe_fault_in_multidigit_fragment,
     probe_eintr_then_hard, probe_short_then_hard, probe_record_at_max_length,
